@@ -108,6 +108,8 @@ def _normalize_type_argument(t):
     """
     if t is typing.Any:
         return object
+    if isinstance(t, typing._AnnotatedAlias):
+        return _normalize_type_argument(t.__origin__)
     args = getattr(t, "__args__", None)
     origin = getattr(t, "__origin__", None)
     if (UnionType and isinstance(t, UnionType)) or origin is typing.Union:
